@@ -32,6 +32,11 @@ class Unit(object):
     self.samples = samples
     self.module = fn.__module__
 
+  @property
+  def bound(self):
+    """non-None when the unit's proof is bounded in some dimension (reported separately)"""
+    return getattr(self.fn, "bound", None)
+
 
 def unit(prop, target=None, name=None, tier="quick", timeout_s=300, samples=40):
   def deco(fn):
